@@ -359,6 +359,17 @@ fn native_value(n: &NativeType, r: &mut Rng) -> CqlValue {
         _ => CqlValue::Int(1),
     }
 }
+/// values the two converting carriers refuse with ValueOverflow: a leap second, an exponent beyond i32
+fn overflowing_leaf(name: &str, r: &mut Rng) -> Option<KV> {
+    match name {
+        "ChronoTime" => Some(KV::Leaf(CqlValue::Time(CqlTime(86_400_000_000_000 + (r.u64() % 1_000_000_000) as i64)))),
+        "BigDecimal" => {
+            let sc = if r.bool() { (1i64 << 31) + r.below(5) as i64 } else { -(1i64 << 31) - 1 - r.below(5) as i64 };
+            Some(KV::BigDec(sc, vec![1 + r.below(100) as u8]))
+        }
+        _ => None,
+    }
+}
 fn leaf_payload(name: &str, r: &mut Rng) -> CqlValue {
     match name {
         "ArrU8" => CqlValue::Blob(r.bytes(4)),
@@ -486,7 +497,14 @@ fn witness(d: &Desc, t: Option<&Ty>, r: &mut Rng, mode: Mode) -> KV {
             };
             KV::Tup(d.args.iter().enumerate().map(|(i, a)| witness(a, ts.and_then(|ts| ts.get(i)), r, mode)).collect())
         }
-        leaf => KV::Leaf(leaf_payload(leaf, r)),
+        leaf => {
+            if holes && r.chance(1, 6) {
+                if let Some(kv) = overflowing_leaf(leaf, r) {
+                    return kv;
+                }
+            }
+            KV::Leaf(leaf_payload(leaf, r))
+        }
     }
 }
 
@@ -613,6 +631,9 @@ fn matrix_types() -> Vec<Ty> {
               "U(6b73;7431;61:int;62:text)", "U(6b73;7432;78:L(int))"] {
         v.push(n(s));
     }
+    for n in 5..=15 {
+        v.push(ColumnType::Tuple(vec![nat(NativeType::Int); n]));
+    }
     v.push(ColumnType::Tuple(vec![nat(NativeType::Int); 16]));
     v.push(ColumnType::Tuple(vec![nat(NativeType::Int); 17]));
     for e in ["int", "text", "bigint", "double", "blob", "uuid"] {
@@ -652,7 +673,7 @@ impl<'a> Gen<'a> {
     }
     /// an operation that (mostly) fails, of a random failure kind
     fn bad_op(&mut self) -> (String, Ty, KV) {
-        match self.r.below(12) {
+        match self.r.below(13) {
             // top-level type mismatch
             0 | 1 => {
                 let (c, t, v) = self.good_op(false);
@@ -685,6 +706,14 @@ impl<'a> Gen<'a> {
                 5 => self.op_of("Vec[Box[i32]]", "L(text)", "seq[w[{int:1}],w[{int:2}]]"),
                 6 => self.op_of("Box[Vec[i32]]", "L(text)", "w[seq[{int:1}]]"),
                 _ => self.op_of("Sec08[String]", "int", "w[{text:61}]"),
+            },
+            // a conversion that fails (ValueOverflow), alone and after siblings; BigDecimal leaves a placeholder behind
+            11 => match self.r.below(5) {
+                0 => self.op_of("BigDecimal", "decimal", "bigdec[80000000,01]"),
+                1 => self.op_of("ChronoTime", "time", "{time:4e94914f0001}"),
+                2 => self.op_of("Vec[BigDecimal]", "L(decimal)", "seq[{decimal:2:01},bigdec[-80000001,7f]]"),
+                3 => self.op_of("Vec[ChronoTime]", "V(time;2)", "seq[{time:1},{time:4e94914f0000}]"),
+                _ => self.op_of("Opt[BigDecimal]", "text", "w[bigdec[80000000,01]]"),
             },
             // vector length mismatch
             8 => {
